@@ -73,6 +73,12 @@ T_Arrays(e) == /\ e.ev = "Arrays" /\ tph = "written"
                              \cup Flag("header-size", HeaderSizeDrift(e))
                   IN Say("BAD", why) /\ Say("DRIFT", dr)
 
+\* save(path) over every pre-state of the destination: the file is exactly the bytes of write (M2Layout!SaveToPath)
+T_Save(e) == /\ e.ev = "Save" /\ tph = "written"
+             /\ UNCHANGED <<tcase, twr, tph, tpm>>
+             /\ IF e.res = "ok" /\ e.tok = twr.tok /\ e.len = twr.len /\ e.len = SaveToPath(twr.len, e.prelen) THEN TRUE
+                ELSE Say("BAD", {<<IF e.res = "ok" THEN "save-bytes" ELSE "save-res", e.pre>>})
+
 T_Parse(e) == /\ e.ev = "Parse" /\ tph = "written"
               /\ UNCHANGED <<tcase, twr>>
               /\ IF e.res = "ok"
@@ -115,7 +121,7 @@ Init == /\ tl = 1 /\ tcase = [kind |-> "none"] /\ twr = NoWrite /\ tph = "none" 
 Next == /\ tl <= Len(Rec)
         /\ tl' = tl + 1
         /\ UNCHANGED mvars
-        /\ LET e == Rec[tl] IN T_Reset(e) \/ T_Write(e) \/ T_Arrays(e) \/ T_Parse(e) \/ T_Rewrite(e) \/ T_Convert(e)
+        /\ LET e == Rec[tl] IN T_Reset(e) \/ T_Write(e) \/ T_Arrays(e) \/ T_Save(e) \/ T_Parse(e) \/ T_Rewrite(e) \/ T_Convert(e)
 
 Accepted == LET d == TLCGet("stats").diameter IN
             IF d - 1 = Len(Rec) THEN PrintT(<<"CONSUMED", Len(Rec)>>) ELSE Print(<<"TRACE_STUCK_AT", d>>, FALSE)
